@@ -348,3 +348,9 @@ def thm_skip():
                 ensures(errs == [], id="the worker does not crash" + tag)
                 ensures([t.tag for t in _flatten(puts)] == want,
                         id="exactly the collocations of the file pairs whose two files were readable reach the queue, each once" + tag)
+
+
+# these client programs only make sense on the ghost executors / queues: no concrete replay
+for _t in REG.theorems:
+    if _t.prop == P:
+        _t.no_concrete_replay = True
